@@ -150,7 +150,7 @@ def _judge(ctx, key, what, acc, oracle_copy, oracle_exc, native_read, rt, **info
 def _run_pressure_pairs(case, ctx):
     r = gen.rng(case["seed"], "pp")
     a = tuple(case["stored"])
-    units = dict(gen.DEFAULT_UNITS, pressure_mode=a[0], pressure_unit=a[1])
+    units = dict(gen.DEFAULT_UNITS, pressure_mode=a[0], pressure_unit=a[1], temperature_unit="°C" if case["seed"] % 2 else "K")
     mp = gen.material_props(r)
     spec, iso = _mk(r, units, case["ads"], case["T"], mp, two=True, n=10)
     fl = RU.fluid(gen.backend_of(case["ads"]))
@@ -212,7 +212,7 @@ def _run_pressure_pairs(case, ctx):
 def _run_loading_pairs(case, ctx):
     r = gen.rng(case["seed"], "lp")
     sl, sm = tuple(case["stored_l"]), tuple(case["stored_m"])
-    units = dict(gen.DEFAULT_UNITS, loading_basis=sl[0], loading_unit=sl[1], material_basis=sm[0], material_unit=sm[1])
+    units = dict(gen.DEFAULT_UNITS, loading_basis=sl[0], loading_unit=sl[1], material_basis=sm[0], material_unit=sm[1], temperature_unit="°C" if case["seed"] % 2 else "K")
     mp = gen.material_props(r)
     spec, iso = _mk(r, units, case["ads"], case["T"], mp, two=True, n=8)
     fl = RU.fluid(gen.backend_of(case["ads"]))
@@ -457,7 +457,7 @@ def _run_interp(case, ctx):
             ctx.count("interp", "outside-refused" if got[0] != "ok" else "outside-returned")
             if got[0] == "ok":
                 ctx.violation("PointIsotherm.loading_at/outside-range-not-refused", "interpolation outside the measured range returned a value without a fill rule", branch=branch, q=q, got=got[1])
-            fill = round(r.uniform(1, 9), 3)
+            fill = r.choice([round(r.uniform(1, 9), 3), 0.0, 0, round(r.uniform(1, 9), 3)])
             got = _call(iso.loading_at, q, branch=branch, interp_fill=fill)
             ctx.case(["interp", "outside-fill", branch])
             if got[0] != "ok" or not close(float(got[1]), fill, 1e-12):
